@@ -518,4 +518,91 @@ class Wire(Family):
         return f"resp{c[1]}:" + classify_host(case["u"], None) + (":longline" if len(case["u"]) > 1000 else "")
 
 
-FAMILIES = [Parse(), Wire()]
+class Purity(Family):
+    """parsing and normalising a URL is a function of the URL alone: whatever the process did before (fetches that follow
+    redirects with absolute, relative, odd or non-gemini targets; uploads; request parsing on the server side) the same URL
+    parses to the same components - in particular a path keeps its `;`, `%`, `.` and empty segments"""
+
+    name = "purity"
+    quick_n = 120
+    thorough_n = 2500
+
+    PROBES = ["gemini://h/dir/file;v=1", "gemini://h/a;b/c;d?q;r", "gemini://h/;x", "gemini://h/a/./b/../c//d", "gemini://h/%2e%2e/x;y", "gemini://H:1965/a%3Bb",
+              "gemini://h/a;b.txt", "gemini://[::1]:1966/p;q;r=1/", "gemini://h/?;", "gemini://h/x;"]
+
+    def gen(self, rng: random.Random, n: int):
+        targets = ["/relative", "relative/path", "../up", "?q", "//other/x", "gemini://b/next", ";params", "./a;b", "", "http://a/", "gemini://b/y;z"]
+        for i in range(n):
+            probes = rng.sample(self.PROBES, 4) + [gen_url(rng) for _ in range(3)] + [gen_url(rng).split("?")[0] + ";p=" + str(i)]
+            graph = {"gemini://a/": ["r", rng.choice([30, 31]), rng.choice(targets)], "gemini://b/next": ["f", 20], "gemini://a/relative": ["f", 20],
+                     "gemini://b/y;z": ["r", 31, rng.choice(targets)]}
+            yield {"probes": probes, "graph": graph, "lines": ["gemini://h/x;y\r\n", "titan://h/up;size=0\r\n"]}
+
+    def impl(self, case):
+        import asyncio
+
+        from nauyaca.client.session import GeminiClient
+        from nauyaca.protocol.request import GeminiRequest
+        from nauyaca.protocol.response import GeminiResponse
+        from nauyaca.utils.url import normalize_url
+
+        def look():
+            out = []
+            for u in case["probes"]:
+                r = parse_obs(u)
+                try:
+                    nz = normalize_url(u)
+                except ValueError:
+                    nz = None
+                out.append([r, nz])
+            return out
+
+        before = look()
+        graph = case["graph"]
+
+        async def fake_single(url: str):
+            e = graph.get(url)
+            if e is None:
+                raise ConnectionError("stub: no such host")
+            if e[0] == "f":
+                return GeminiResponse(status=e[1], meta="text/gemini", body="x", url=url)
+            return GeminiResponse(status=e[1], meta=e[2], url=url)
+
+        async def go():
+            client = GeminiClient(max_redirects=5, verify_ssl=False, trust_on_first_use=False)
+            client._get_single = fake_single  # type: ignore[method-assign]
+            for start in ("gemini://a/", "gemini://b/y;z"):
+                try:
+                    await client.get(start, follow_redirects=True)
+                except Exception:  # noqa: BLE001  what the fetch returns is C16's business
+                    pass
+
+        asyncio.run(go())
+        for ln in case["lines"]:
+            try:
+                GeminiRequest.from_line(ln.strip())
+            except Exception:  # noqa: BLE001
+                pass
+        return {"before": before, "after": look()}
+
+    def model(self, case):
+        return None     # family parse compares single URLs with the Lean model; here the oracle speaks
+
+    def oracle(self, case, obs):
+        for u, b, a in zip(case["probes"], obs["before"], obs["after"]):
+            if a != b:
+                return ("parse-depends-on-history", f"{u!r} parsed/normalised to {b} before and to {a} after the same process followed some redirects and parsed some request lines")
+            r = a[0]
+            if r[0] == "ok":
+                tail = u.split("://", 1)[1]
+                rawpath = "/" + tail.split("/", 1)[1] if "/" in tail.split("?")[0] else "/"
+                rawpath = rawpath.split("?")[0].split("#")[0]
+                if ";" in rawpath and r[3] != rawpath and "\t" not in u and "\n" not in u and "\r" not in u:
+                    return ("path-lost-params", f"{u!r}: path component is {r[3]!r}, the URL says {rawpath!r}")
+        return None
+
+    def key(self, case, obs):
+        return f"{sum(1 for a in obs['after'] if a[0][0] == 'ok')} ok of {len(obs['after'])}"
+
+
+FAMILIES = [Parse(), Wire(), Purity()]
